@@ -274,6 +274,8 @@ class Engine:
 
             idm = fresh_fun(name + "_idx", z3.IntSort(), z3.IntSort())  # trigger-only: idx(r) names the r-th set
             self.seed_funs.append(idm)
+            gx_ = fresh("gx")
+            self.global_axioms.append(z3.ForAll([gx_], idm(gx_) >= 0, patterns=[idm(gx_)]))
             return SeqV(n, mk_set, "list", {"cellsets": S3, "idmark": idm})
         if sort == "Str":  # a string = the sequence of its character codes
             n = fresh(name + "_n")
